@@ -230,7 +230,8 @@ func checkLex(v *lexVec) *disagreement {
 		var parts [][]byte
 		start := 0
 		for i, c := range whole {
-			if c == '\n' && i+1 < len(whole) {
+			// (not in front of a continuation line: "%%+" belongs to the comment before it)
+			if c == '\n' && i+1 < len(whole) && !bytes.HasPrefix(whole[i+1:], []byte("%%+")) {
 				parts = append(parts, whole[start:i+1])
 				start = i + 1
 			}
